@@ -1186,3 +1186,18 @@ V('c18-owned-filters-not-copied', 'C18', 'C18.R14',
 V('c11-namespace-set-raw-again', 'C11', 'C11.R3',
   ('pywbem_mock/_instancewriteprovider.py', '                        ref_namespaces.setdefault(ns_key, refprop_namespace)\n', '                        ref_namespaces.setdefault(refprop_namespace,\n                                                  refprop_namespace)\n'),
   'duplicates-possible')
+V('c16-start-cleanup-without-listener-threads', 'C16', 'C16.R9',
+  ('pywbem/_listener.py', "            self._stop_listener_threads()\n            self._stop_indication_delivery(immediate=True)\n            raise\n",
+   "            self._stop_indication_delivery(immediate=True)\n            raise\n"),
+  'not-undone-on-failure')
+V('c18-destination-id-colon-unchecked', 'C18', 'C18.R4',
+  ('pywbem/_subscription_manager.py', "            if ':' in destination_id:\n                raise ValueError(\n                    _format(\"Destination ID contains ':': {0!A}\",\n                            destination_id))\n",
+   ""),
+  'colon-check')
+V('c12-modifyclass-namespace-positional', 'C12', 'C12.R17',
+  ('pywbem/_mof_compiler.py', "            p.parser.handle.ModifyClass(cc, namespace=ns)\n", "            p.parser.handle.ModifyClass(cc, ns)\n"),
+  'namespace-not-by-keyword')
+V('c09-setqualifier-without-namespace', 'C09', 'C09.R15',
+  ('pywbem/_mof_compiler.py', "            p.parser.handle.SetQualifier(qualdecl, namespace=ns)\n        elif ce.status_code == CIM_ERR_NOT_SUPPORTED:",
+   "            p.parser.handle.SetQualifier(qualdecl)\n        elif ce.status_code == CIM_ERR_NOT_SUPPORTED:"),
+  'namespace-not-by-keyword')
